@@ -1,29 +1,203 @@
 package main
 
+import (
+	"encoding/json"
+	"fmt"
+	"math/rand"
+	"regexp"
+	"sort"
+	"strings"
+
+	"verif/engine/sym"
+
+	"github.com/AdguardTeam/urlfilter/rules"
+)
+
+// maskTokens are the tokens from which mask patterns are enumerated.
+var maskTokens = []string{".", "+", "?", "$", "{", "}", "(", ")", "[", "]", "/", "\\", "*", "^", "|", "a", "B", "1", "%", "-", "_", " "}
+
+type nativeRules struct {
+	texts []string
+	rules []*rules.NetworkRule
+}
+
+// enumerateMaskRules parses pattern+"$domain=example.org[,match-case]" for every token sequence up to maxTok.
+func enumerateMaskRules(maxTok int, sampleBeyond int, seed int64) *nativeRules {
+	seen := map[string]bool{}
+	nr := &nativeRules{}
+	add := func(pat string) {
+		for _, opt := range []string{"$domain=example.org", "$domain=example.org,match-case"} {
+			text := pat + opt
+			r, err := rules.NewNetworkRule(text, 1)
+			if err != nil || r.IsRegexRule() {
+				continue
+			}
+			k := fmt.Sprintf("%v|%s", r.IsOptionEnabled(rules.OptionMatchCase), ruleField(r, "pattern"))
+			if seen[k] {
+				continue
+			}
+			seen[k] = true
+			nr.texts = append(nr.texts, text)
+			nr.rules = append(nr.rules, r)
+		}
+	}
+	var rec func(prefix string, n int)
+	rec = func(prefix string, n int) {
+		if n > 0 {
+			add(prefix)
+			add("||" + prefix)
+			add(prefix + "/*")
+		}
+		if n == maxTok {
+			return
+		}
+		for _, t := range maskTokens {
+			rec(prefix+t, n+1)
+		}
+	}
+	rec("", 0)
+	rnd := rand.New(rand.NewSource(seed))
+	for i := 0; i < sampleBeyond; i++ {
+		n := maxTok + 1 + rnd.Intn(3)
+		p := ""
+		if rnd.Intn(3) == 0 {
+			p = "||"
+		}
+		for j := 0; j < n; j++ {
+			p += maskTokens[rnd.Intn(len(maskTokens))]
+		}
+		add(p)
+	}
+	return nr
+}
+
+func ruleField(r *rules.NetworkRule, name string) string {
+	return reflectString(r, name)
+}
+
+func nativeRuleProvider(nr *nativeRules) func(e *sym.Engine, st *sym.State, i int) sym.Value {
+	return func(e *sym.Engine, st *sym.State, i int) sym.Value {
+		// parse afresh so that lazily compiled state never leaks between jobs
+		r, err := rules.NewNetworkRule(nr.texts[i], 1)
+		if err != nil {
+			panic(err)
+		}
+		return e.ImportPtr(st, r, modPath+"/rules", "NetworkRule")
+	}
+}
+
+func batchJobs(fn string, n, batch int, extra ...int64) []Job {
+	var jobs []Job
+	for from := 0; from < n; from += batch {
+		c := batch
+		if from+c > n {
+			c = n - from
+		}
+		jobs = append(jobs, Job{Pkg: "rules", Func: fn, Args: append([]int64{int64(from), int64(c)}, extra...)})
+	}
+	return jobs
+}
+
+// validateRegexEncoding compares the engine's encoding of each rule's compiled
+// expression with regexp.MatchString on concrete strings.
+func validateRegexEncoding(l *sym.Loaded, nr *nativeRules, seed int64, perRule int) (int, []string) {
+	e, err := sym.NewEngine(l.Prog, "", 1000)
+	if err != nil {
+		return 0, []string{err.Error()}
+	}
+	defer e.Close()
+	rnd := rand.New(rand.NewSource(seed))
+	fixed := []string{"", "http://example.org/", "https://sub.example.org/a?b=c", "ws://a.b/", "a", "A", "http://a^b", "x.y%z", "ab ", " "}
+	n := 0
+	var mm []string
+	alpha := " !#$%&()*+,-./019:;=?@ABZ[\\]^_`abz{|}~"
+	for i, r := range nr.rules {
+		pat := rules.VerifCompiledPattern(r)
+		if pat == "" {
+			continue
+		}
+		re, err := regexp.Compile(pat)
+		if err != nil {
+			continue
+		}
+		var inputs []string
+		inputs = append(inputs, fixed...)
+		for k := 0; k < perRule; k++ {
+			b := make([]byte, rnd.Intn(10))
+			for j := range b {
+				b[j] = alpha[rnd.Intn(len(alpha))]
+			}
+			inputs = append(inputs, string(b))
+			// strings built around the pattern itself are more likely to match
+			base := nr.texts[i]
+			if k := strings.Index(base, "$domain"); k >= 0 {
+				base = base[:k]
+			}
+			inputs = append(inputs, "http://"+strings.NewReplacer("|", "", "*", "x", "^", "/").Replace(base))
+		}
+		for _, in := range inputs {
+			got, err := e.EvalProgConcrete(pat, in)
+			n++
+			if err != nil {
+				mm = append(mm, fmt.Sprintf("encoding of %q failed: %v", pat, err))
+				break
+			}
+			if got != re.MatchString(in) {
+				mm = append(mm, fmt.Sprintf("regexp encoding disagrees with MatchString: pattern %q input %q: encoding %v", pat, in, got))
+			}
+		}
+		if len(mm) > 5 {
+			break
+		}
+	}
+	return n, mm
+}
+
 func init() {
 	register(&Spec{
 		ID:       "C03",
 		Pkgs:     []string{"rules"},
 		InitPkgs: []string{"filterutil", "rules"},
+		Prepare: func(rc *RunCtx) error {
+			maxTok, sample := 2, 150
+			if rc.Tier == "thorough" {
+				maxTok, sample = 3, 1000
+			}
+			nr := enumerateMaskRules(maxTok, sample, rc.Seed)
+			rc.Natives["rules"] = nr
+			b, _ := json.Marshal(nr.texts)
+			rc.ReplayFiles["VERIF_RULES"] = b
+			return nil
+		},
 		Jobs: func(tier string) []Job {
-			jobs := []Job{{Pkg: "rules", Func: "verifC03aVacuity", Vacuity: true}}
-			maxN := 3
+			jobs := []Job{{Pkg: "rules", Func: "verifC03aVacuity", Vacuity: true}, {Pkg: "rules", Func: "verifMaskVacuity", Vacuity: true}}
+			maxN, maxL := 3, 10
 			if tier == "thorough" {
-				maxN = 4
+				maxN, maxL = 4, 14
 			}
 			for n := 1; n <= maxN; n++ {
 				jobs = append(jobs, Job{Pkg: "rules", Func: "verifC03a", Args: []int64{int64(n)}})
 			}
+			nr := curRun.Natives["rules"].(*nativeRules)
+			jobs = append(jobs, batchJobs("verifMaskRules", len(nr.texts), 8, int64(maxL), 3)...)
 			return jobs
 		},
-		Setup:     setupNetip,
-		MustReach: []string{"c03a.translated"},
-		Bounds: map[string]string{
-			"quick":    "(a) pattern of 1..3 symbolic bytes over {a . * ^ | / $ \\}",
-			"thorough": "(a) pattern of 1..4 symbolic bytes",
+		Setup: func(e *sym.Engine, st *sym.State, l *sym.Loaded) {
+			setupNetip(e, st, l)
+			e.Ctx["native:rule"] = nativeRuleProvider(curRun.Natives["rules"].(*nativeRules))
 		},
-		Outside:     []string{"patterns longer than the bound", "non-ASCII"},
-		Assumptions: []string{"strings.Replacer modelled for the concrete single-byte table read from the live specialCharReplacer initialiser"},
-		Rule:        "one state per feasible path (positions of special characters fork)",
+		MustReach: []string{"c03a.translated", "c03b.rule"},
+		Bounds: map[string]string{
+			"quick":    "(a) pattern of 1..3 symbolic bytes over {a . * ^ | / $ \\}; (b) every mask pattern of 1..2 tokens over 22 tokens (all regexp metacharacters, * ^ |, letters of both cases, digit, % - _ space), each also with a leading || and a trailing /*, with and without $match-case, plus 150 seeded longer patterns: for each, ALL URLs of 0..10 printable-ASCII bytes",
+			"thorough": "(a) 1..4 bytes; (b) 1..3 tokens plus 1000 seeded longer patterns, URLs of 0..14 bytes",
+		},
+		Outside:     []string{"URLs longer than the bound", "non-ASCII bytes", "patterns above the token bound (sampled only)", "regexp.Compile itself: the compiled program is obtained natively and its Pike-VM semantics encoded; the encoding is validated against MatchString on concrete strings each run"},
+		Assumptions: []string{"strings.Replacer modelled for the concrete single-byte table read from the live specialCharReplacer initialiser", "regexp encoding == (*Regexp).MatchString on ASCII (validated on concrete strings each run)", "reference automaton written from the documented mask syntax (rules/regex.go comments and the knowledge-base text)"},
+		Rule:        "outer enumeration of concrete patterns (parsed natively by the real parser); per (pattern, URL length) one solver query over all URL bytes",
+		Validate: func(l *sym.Loaded, tier string, seed int64) (int, []string) {
+			return validateRegexEncoding(l, curRun.Natives["rules"].(*nativeRules), seed, 6)
+		},
 	})
 }
+
+var _ = sort.Strings
